@@ -19,12 +19,13 @@ pub fn check(tier: Tier) -> Check {
     parts.push(Part::new("C08/acks", json!({"depth": tier.pick(2, 3), "pids": [4242, 1], "flavour": 4}), 0, tier.pick(40, 300)));
     // a Maximum Packet Size so small that the client can send no request at all (2 / 3 bytes): every
     // inbound QoS>0 PUBLISH and PUBREL is acknowledged all the same (the limit binds requests, C12)
+    parts.push(Part::new("C08/reconnect", json!({}), 0, 60));
     parts.push(Part::new("C08/tiny", json!({"depth": tier.pick(3, 4)}), 0, tier.pick(40, 300)));
     Check {
         also_rel: false,
         property: "C08",
         level: "model_checking",
-        rule: "all sequences of inbound PUBLISH (QoS 0/1/2 x DUP x packet id x subscription identifier absent / live stream / dropped stream / never registered) and PUBREL (also several packets arriving in one read, repeated PUBRELs, PUBRELs for identifiers never seen, PUBRELs in their three-byte form with reason 0x92 and in full with a reason string), with one client publish interleaved; the same under a Maximum Packet Size of 2 / 3 bytes (which binds the client's requests, not its acknowledgements); the same on the second connection of a Context whose first connection ended inside an inbound packet or with a failed acknowledgement write; the wire must show exactly one PUBACK/PUBREC/PUBCOMP per packet with its identifier, in arrival order; non-trivial = at least one acknowledgement was due".into(),
+        rule: "all sequences of inbound PUBLISH (QoS 0/1/2 x DUP x packet id x subscription identifier absent / live stream / dropped stream / never registered) and PUBREL (also several packets arriving in one read, repeated PUBRELs, PUBRELs for identifiers never seen, PUBRELs in their three-byte form with reason 0x92 and in full with a reason string), with one client publish interleaved; across a resume / a plain reconnect with an inbound QoS 2 exchange open (no acknowledgement is repeated on its own); the same under a Maximum Packet Size of 2 / 3 bytes (which binds the client's requests, not its acknowledgements); the same on the second connection of a Context whose first connection ended inside an inbound packet or with a failed acknowledgement write; the wire must show exactly one PUBACK/PUBREC/PUBCOMP per packet with its identifier, in arrival order; non-trivial = at least one acknowledgement was due".into(),
         assumptions: vec!["the reason code inside the client's acknowledgement is unconstrained".into()],
         parts,
     }
@@ -65,6 +66,11 @@ fn tiny(name: String, params: Value) -> Scenario {
 }
 
 pub fn scenario(name: &str, params: &Value) -> Scenario {
+    if name == "C08/reconnect" {
+        // (the C09 reconnect histories, judged by C08's rule: one acknowledgement per inbound packet -
+        // nothing is written for packets of the previous connection)
+        return super::c09::reset("C08", name.to_string(), params.clone());
+    }
     if name == "C08/tiny" {
         return tiny(name.to_string(), params.clone());
     }
